@@ -391,6 +391,8 @@ def run(ctx: core.Ctx) -> None:
         ctx.counters['states'] = ctx.set_size('outcomes')
         ctx.counters['nontrivial'] = ctx.set_size('nontrivial_outcomes')
         ctx.coverage_extra['bound'] = bound
+        ctx.coverage_extra['replayed_twice'] = edev.REPLAY_STATS['replayed_twice']
+        ctx.coverage_extra['divergences'] = edev.REPLAY_STATS['divergences']
     finally:
         pool.close()
         pool.join()
